@@ -32,7 +32,7 @@ OUT_SCALE = {"float64": (1e-170, 1e170), "float32": (1e-25, 1e25)}
 SLOPES = [1e-3, 1.0, 1e3]
 INTERVALS = [(-10.0, 10.0), (0.0, 1.0), (-1e-3, 1e-3), (5.0, 6.0)]
 TOLS = [1e-2, 1e-3, 1e-4, 1e-5, 1e-6, 1e-7, 1e-8, 1e-9]
-MAX_ITERS = [0, 1, 5, 30, 200]
+MAX_ITERS = [0, 1, 5, 30, 200, None]  # None: max_iter not passed (the documented default, 200)
 
 
 def bounds(tier):
@@ -134,7 +134,11 @@ def _grid(case):
     max_ratio = 0.0
     eps = np.finfo(dtype).eps
     for max_iter in MAX_ITERS:
-        inv = AutoregressiveBisectionInverter(lower=dtype(lo), upper=dtype(hi), tol=tol, max_iter=max_iter)
+        if max_iter is None:
+            inv = AutoregressiveBisectionInverter(lower=dtype(lo), upper=dtype(hi), tol=tol)
+            max_iter = 200  # the documented default is what the outcome is judged against
+        else:
+            inv = AutoregressiveBisectionInverter(lower=dtype(lo), upper=dtype(hi), tol=tol, max_iter=max_iter)
 
         class B:
             shape = (1,)
